@@ -131,6 +131,13 @@ def run(sc):
             await orig_put(msg)
             s.ev('put-done', type(msg).__name__, msg.sequence_num)
         corr.put = put
+        orig_get = corr.get
+
+        async def get(resp):
+            # when the correlator was ASKED (its answer is decided before its own sweep awaits anything)
+            s.ev('get-start', type(resp).__name__, resp.sequence_num)
+            return await orig_get(resp)
+        corr.get = get
         orig_deq = s.esme.broker.dequeue
 
         async def dequeue():
@@ -301,10 +308,13 @@ def predicate(sc, ev):
     seq_log = dict(sc.get('_seq_log', {}))
     put_done = set()
     put_at = {}
+    asked_early = set()     # responses the correlator was asked about before the request was stored
     for e in ev:
         if e[1] == 'put-done':
             put_done.add(e[3])
             put_at.setdefault(e[3], e[0])
+        if e[1] == 'get-start' and e[3] not in put_done:
+            asked_early.add(e[3])
         if e[1] == 'received' and e[2] in ('SubmitSmResp', 'GenericNack'):
             if not e[4]:
                 seq = struct.unpack('!I', e[3][12:16])[0]
@@ -318,7 +328,7 @@ def predicate(sc, ev):
                 text = 'a %s (status %s, seq %d, message %s) reached the received hook without log_id before its request got any outcome' % (
                     e[2], e[6], seq, log)
                 # the response found nothing to be correlated with because correlator.put had not finished storing the request
-                return text, ('response-overtakes-put' if seq not in put_done else None)
+                return text, ('response-overtakes-put' if seq not in put_done or seq in asked_early else None)
             outcomes.setdefault(e[4], []).append(('resp', e[6]))
         elif e[1] == 'send_error' and e[2] == 'SubmitSm':
             outcomes.setdefault(e[3], []).append(('error', e[4]))
@@ -520,7 +530,10 @@ def predicate14(sc, ev):
             t_err = [e[0] for e in ev if e[1] == 'send_error' and e[3] == m['log'] and e[4] == 'TimeoutError']
             if sent and (not t_err or t_err[0] > sent[0][0] + 1e-3):
                 # the request was written; was it also handed to the correlator (a failed write is not "sent")?
-                done = [e for e in ev if e[1] == 'write' and e[0] >= sent[0][0] - 1e-9 and e[0] <= sent[0][0] + 1e-3]
+                # (a write the peer answers by resetting the connection raises out of the send: the request never reaches
+                # the correlator, the sender ends, and the sweep comes with the bind request of the reconnect)
+                done = [e for e in ev if e[1] == 'write' and e[0] >= sent[0][0] - 1e-9 and e[0] <= sent[0][0] + 1e-3] and \
+                       [e for e in ev if e[1] == 'put-start' and e[3] == sent[0][3] and e[0] <= sent[0][0] + 1e-3]
                 if done:
                     return ('message %s outlived its time-to-live at %.3f; the next request (%s at %.3f) was sent without the '
                             'time-out being reported (reported: %s)' % (m['log'], t_exp, sent[0][2], sent[0][0], t_err[:1] or 'never'))
